@@ -11,6 +11,7 @@ INVARIANT LoadTwiceEqual
 INVARIANT FilesDescribeSnaps
 INVARIANT ResaveFixpoint
 INVARIANT LoadedIsCanonical
+INVARIANT FreshResaveKeepsParameters
 PROPERTY SnapshotsFrozen
 PROPERTY RefusalsChangeNothing
 PROPERTY WritesAreAppendOnly
